@@ -1,15 +1,9 @@
 /- GENERATED from the Go source by /verif/extract on every run. Do not edit. -/
 import TunnoxModel.Model.PredPrelude
+import TunnoxModel.Gen.Security
 import TunnoxModel.Model.C03Types
 open Tunnox.PredPrelude
 namespace Gen
-
-namespace security
-def DefaultMaxFailures : Nat := 5
-def DefaultPermanentBanAt : Nat := 20
-def DefaultTimeWindow : Nat := 300000000000
-def DefaultBanDuration : Nat := 1800000000000
-end security
 
 namespace anonymous
 def AnonymousExpirationDays : Nat := 30
@@ -24,17 +18,17 @@ def IsExpired (now : Nat) (c : Tunnox.C03.ClientConfigT) : Bool :=
 end models.ClientConfig
 
 namespace Skel
+def C03_UpdateAuth : List String := ["mu.Lock", "mu.Unlock"]
+def C03_handleHandshake : List String := ["json.Unmarshal", "getControlConnectionByConnID", "getConnectionByConnID", "NewControlConnection", "RegisterControlConnection", "getControlConnectionByConnID", "getConnectionByConnID", "NewControlConnection", "RegisterControlConnection", "authHandler.HandleHandshake", "sendHandshakeResponse", "sendHandshakeResponse", "clientRegistry.GetByClientID", "clientRegistry.Remove", "clientRegistry.UpdateAuth", "getConnectionByConnID", "getConnectionByConnID"]
+def C03_removeConnectionLocked : List String := ["Stream.Close", "delete"]
 def ComputeResponse : List String := ["hmac.New", "h.Write", "hex.EncodeToString", "h.Sum"]
 def GenerateChallenge : List String := ["rand.Read", "hex.EncodeToString"]
 def HandleHandshake : List String := ["ipManager.IsAllowed", "bruteForceProtector.IsBanned", "rateLimiter.AllowIP", "handleFirstConnection", "cloudControl.GetClientConfig", "bruteForceProtector.RecordFailure", "config.IsExpired", "handleChallengePhase1", "handleChallengePhase2"]
 def RecordFailure : List String := ["cleanupOldFailures", "banIP", "banIP"]
-def UpdateAuth : List String := ["mu.Lock", "mu.Unlock"]
 def VerifyResponse : List String := ["Decrypt", "ComputeResponse", "hmac.Equal"]
 def handleChallengePhase1 : List String := ["secretKeyMgr.GenerateChallenge", "conn.SetPendingChallenge"]
 def handleChallengePhase2 : List String := ["conn.GetPendingChallenge", "bruteForceProtector.RecordFailure", "conn.ClearPendingChallenge", "secretKeyMgr.VerifyResponse", "bruteForceProtector.RecordFailure", "bruteForceProtector.RecordSuccess", "conn.SetClientID", "conn.SetAuthenticated", "updateClientRuntimeState"]
 def handleFirstConnection : List String := ["cloudControl.GenerateAnonymousCredentials", "bruteForceProtector.RecordFailure", "bruteForceProtector.RecordSuccess", "conn.SetClientID", "conn.SetAuthenticated", "updateClientRuntimeState"]
-def handleHandshake : List String := ["json.Unmarshal", "getControlConnectionByConnID", "getConnectionByConnID", "NewControlConnection", "RegisterControlConnection", "getControlConnectionByConnID", "getConnectionByConnID", "NewControlConnection", "RegisterControlConnection", "authHandler.HandleHandshake", "sendHandshakeResponse", "sendHandshakeResponse", "clientRegistry.GetByClientID", "clientRegistry.Remove", "clientRegistry.UpdateAuth", "getConnectionByConnID", "getConnectionByConnID"]
-def removeConnectionLocked : List String := ["Stream.Close", "delete"]
 end Skel
 
 namespace Cond
